@@ -63,7 +63,7 @@ C01 == /\ Add(x, y) = Enc(Val(k, x) + Val(k, y))
        /\ Sub(x, y) = Enc(Val(k, x) - Val(k, y))
        /\ Mul(x, y) = Enc(S(x) * S(y))             \* |S|^2 <= 2^30 fits; same residue as U*U
        /\ Neg(x) = Enc(-Val(k, x))
-       /\ Inc(x) = Enc(Val(k, x) + 1) /\ Dec(x) = Enc(Val(k, x) - 1)
+       /\ IncL(x) = Enc(Val(k, x) + 1) /\ DecL(x) = Enc(Val(k, x) - 1)
        /\ Sub(Add(x, y), y) = x
 
 (* ------------------------------ C02 ----------------------------------- *)
